@@ -35,7 +35,7 @@ var vpC19Names = map[string]string{
 	"api.test.local": "127.1.2.3", "x.corp.example.org": "127.9.9.5", "example.com.evil.org": "127.9.9.6", "other.net": "127.1.2.77",
 	"example.net": "127.9.9.7", "notexample.net": "127.9.9.8", "x.y.corp.example.org": "127.9.9.9", "corp.example.org": "127.9.9.10",
 	"v6.example.com": "::1",
-	"intranet": "127.9.9.11", "localhost": "127.9.9.12", "com": "127.9.9.13", "example": "127.9.9.14",
+	"intranet":       "127.9.9.11", "localhost": "127.9.9.12", "com": "127.9.9.13", "example": "127.9.9.14",
 }
 
 var vpC19Dests = []string{
